@@ -1187,29 +1187,82 @@ def _m(spec, r):
     return True
 
 
-@mutation("timed.function_of_state", "reject", None, model=False)
-def _m(spec, r):
-    """the duration of a timed compartment is fixed when the model is built: a timed parameter whose function depends (directly, or through another parameter)
-    on a compartment, a characteristic or the time cannot be honoured -- such a framework would be accepted and then fail at Model() with an assertion"""
-    i = Info(spec)
+def _timed_target(i, r):
+    """a timed transition parameter (made from an untimed one, as timed.two_outflows does, when the framework has none)"""
     tp = [p for p in i.trans_pars() if i.timed(p)]
     if tp:
-        p = pick(r, tp)
-    else:  # no timed parameter in this framework: make one (as timed.two_outflows does)
-        p = pick(r, [p for p in _untimed_simple(i) if len(i.from_comps(p)) == 1])
+        return pick(r, tp)
+    p = pick(r, [p for p in _untimed_simple(i) if len(i.from_comps(p)) == 1])
+    if p is None:
+        return None
+    i.pars[p].update(timed="y", format="duration", targetable="n")
+    _clear_ts(i.pars[p])
+    return p
+
+
+TIMED_VARYING_HOW = ["direct", "indirect", "time", "twodeep", "derivative", "characteristic", "dt"]
+
+
+def _timed_varying(how):
+    """the duration of a timed compartment is fixed when the model is built: a timed parameter whose function depends (directly, or through other parameters)
+    on a compartment, a characteristic, the time or a derivative parameter cannot be honoured -- such a framework would be accepted and then fail at Model()
+    with an assertion (rule `timedVarying` of the Lean model: closure of the parameter-dependency relation)"""
+
+    def f(spec, r):
+        i = Info(spec)
+        p = _timed_target(i, r)
         if p is None:
             return False
-        i.pars[p].update(timed="y", format="duration", targetable="n")
-        _clear_ts(i.pars[p])
-    comp = i.from_comps(p)[0]
-    how = r.choice(["direct", "indirect", "time"])
-    if how == "direct":
-        i.pars[p]["function"] = "1 + %s/(%s + 1)" % (comp, comp)
-    elif how == "time":
-        i.pars[p]["function"] = "1 + 0.01*(t - 2000)"
+        comp = i.from_comps(p)[0]
+        pt = i.pt(i.comps[comp])
+        h = how or r.choice(TIMED_VARYING_HOW)
+        if h == "direct":
+            i.pars[p]["function"] = "1 + %s/(%s + 1)" % (comp, comp)
+        elif h == "time":
+            i.pars[p]["function"] = "1 + 0.01*(t - 2000)"
+        elif h == "dt":
+            i.pars[p]["function"] = "1 + 4*dt"
+        elif h == "characteristic":
+            c = pick(r, [c for c in i.characs if i.pt(i.characs[c]) == pt])
+            if c is None:
+                return False
+            i.pars[p]["function"] = "1 + 0*%s" % c
+        elif h == "indirect":
+            q = i.new_par("tvar", None, pt=pt, page=None, default=None, function="%s/(%s + 1)" % (comp, comp))
+            i.pars[p]["function"] = "1 + %s" % q
+        elif h == "twodeep":
+            q2 = i.new_par("tdeep", None, pt=pt, page=None, default=None, function="0.001*%s" % comp)
+            q1 = i.new_par("tmid", None, pt=pt, page=None, default=None, function="2*%s" % q2)
+            i.pars[p]["function"] = "1 + %s" % q1
+        else:  # through a derivative parameter (its own function is a constant: it varies because it is integrated)
+            q = i.new_par("tacc", None, pt=pt, page="pp", default=0, derivative="y", function="0.01")
+            i.pars[p]["function"] = "1 + %s" % q
+        return True
+
+    f.__doc__ = _timed_varying.__doc__
+    return f
+
+
+mutation("timed.function_of_state", "reject", "timedVarying")(_timed_varying(None))
+for _how in TIMED_VARYING_HOW:  # one entry per way of varying (a random draw would leave e.g. the derivative clause untested on a quick run)
+    mutation("timed.function_of_state." + _how, "reject", "timedVarying")(_timed_varying(_how))
+
+
+@mutation("timed.constant_function", "accept")
+def _m(spec, r):
+    """a timed parameter may be a CONSTANT function of data parameters (one or two deep): accepted, builds and runs"""
+    i = Info(spec)
+    p = _timed_target(i, r)
+    if p is None:
+        return False
+    pt = i.pt(i.comps[i.from_comps(p)[0]])
+    b = i.new_par("tconst", "duration", pt=pt, page="pp", default=r.choice([None, 1.0]))
+    if r.random() < 0.5:
+        i.pars[p]["function"] = r.choice(["2*%s", "%s + 0.5", "max(%s, 1)"]).replace("%s", b)
     else:
-        q = i.new_par("tvar", None, pt=i.pt(i.comps[comp]), page=None, default=None, function="%s/(%s + 1)" % (comp, comp))
-        i.pars[p]["function"] = "1 + %s" % q
+        q = i.new_par("tconstmid", None, pt=pt, page=None, default=None, function="%s/2" % b)
+        i.pars[p]["function"] = "1 + %s + %s" % (q, b)
+    i.pars[p].update(page=None, default=None)
     return True
 
 
